@@ -543,6 +543,19 @@ func registerMisc(t map[string]intrinsic) {
 		}
 		return Str{out}, nil
 	}
+	// context.WithValue: the real valueCtx node without the reflect-based comparability check
+	t["context.WithValue"] = func(ex *Exec, caller *frame, fn *ssa.Function, args []Value) (Value, *goPanic) {
+		parent := args[0].(Iface)
+		if parent.T == nil {
+			return nil, &goPanic{msg: "cannot create context from nil parent"}
+		}
+		tn := fn.Pkg.Type("valueCtx")
+		if tn == nil {
+			panic(engineErr("context.valueCtx not found"))
+		}
+		o := ex.newObj(tn.Type(), &Struct{[]Value{parent, args[1], args[2]}}, "valueCtx")
+		return Iface{T: types.NewPointer(tn.Type()), V: Ptr{Obj: o}}, nil
+	}
 	t["os.LookupEnv"] = lookupEnv
 	t["syscall.Getenv"] = lookupEnv
 	t["os.Getenv"] = func(ex *Exec, caller *frame, fn *ssa.Function, args []Value) (Value, *goPanic) {
